@@ -1470,6 +1470,7 @@ class _StmtMixin:
         for d in explicit:
             if d in fr.rdead:
                 fr.rdead.remove(d)
+        self.event("try_body_end", (exc,), st)
         if st.orelse:
             self.guard.append(not_(exc))
             if self.feasible():
